@@ -134,6 +134,38 @@ func proxy(target string, cut int) (addr string, stop func(), err error) {
 // the shard).  Answer: "refused" if the destination reports an error, otherwise the digest of
 // what the destination's shard reads for the listed series/fields.
 func (e *Env) Copy(cut string, series, fields []string) string {
+	return e.copy(cut, "", series, fields)
+}
+
+// CopyAgain: a first copy with the source's stream cut as `cut` says, then a second,
+// undisturbed copy to the same destination (the operator runs copy-shard again). Answer:
+// that of the second copy, which must hold everything the source holds.
+func (e *Env) CopyAgain(cut string, series, fields []string) string {
+	return e.copy(cut, "full", series, fields)
+}
+
+func (e *Env) copy(cut, again string, series, fields []string) string {
+	// a fresh destination
+	e.ncopy++
+	bdir := filepath.Join(e.Dir, fmt.Sprintf("b%d", e.ncopy))
+	defer os.RemoveAll(bdir)
+	ln, err := node.Listen()
+	if err != nil {
+		return "err:listen"
+	}
+	b, err := node.New(bdir, ln, node.Options{Index: e.Index})
+	if err != nil {
+		return "err:dest:" + strings.ReplaceAll(err.Error(), " ", "_")
+	}
+	defer b.Close()
+	res := e.copyTo(b, bdir, cut, series, fields)
+	if again != "" {
+		res = e.copyTo(b, bdir, again, series, fields)
+	}
+	return res
+}
+
+func (e *Env) copyTo(b *node.Node, bdir, cut string, series, fields []string) string {
 	shard := uint64(ShardID)
 	if cut == "nosrc" {
 		shard = 999
@@ -167,19 +199,6 @@ func (e *Env) Copy(cut string, series, fields []string) string {
 		return "err:proxy"
 	}
 	defer stop()
-	// a fresh destination
-	e.ncopy++
-	bdir := filepath.Join(e.Dir, fmt.Sprintf("b%d", e.ncopy))
-	defer os.RemoveAll(bdir)
-	ln, err := node.Listen()
-	if err != nil {
-		return "err:listen"
-	}
-	b, err := node.New(bdir, ln, node.Options{Index: e.Index})
-	if err != nil {
-		return "err:dest:" + strings.ReplaceAll(err.Error(), " ", "_")
-	}
-	defer b.Close()
 	// the request the meta node sends to the destination
 	conn, err := net.DialTimeout("tcp", b.Addr, 2*time.Second)
 	if err != nil {
